@@ -190,3 +190,33 @@ Fixpoint scan_noack (failed : bool) (es : list event) : bool :=
   | ETx (Puback _ | Pubrec _ | Pubcomp _) _ _ :: es' => negb failed && scan_noack failed es'
   | _ :: es' => scan_noack failed es'
   end.
+
+(* ------------------------------------------------------------------ C15, client side *)
+
+(* arrival order: a message callback is always for the PUBLISH the processor has just received
+   (QoS 0/1, and QoS 2 in the announce-on-publish mode) or for the stored message it has just looked
+   up for the PUBREL it has just received (QoS 2, default mode); no other packet is received, and
+   no other processor step happens, between the arrival and its callback *)
+Definition order_step (last : option message) (e : event) : option (option message) :=
+  match e with
+  | ENew _ => Some None
+  | ECb m _ =>
+    match last with
+    | Some m' => if message_eqb m m' then Some None else None
+    | None => None
+    end
+  | _ =>
+    if proc_obs e then
+      match e with
+      | ERx (Publish _ m _) => Some (Some m)
+      | ELookup Incoming _ (Some (Some (Publish _ m _))) => Some (Some m)
+      | _ => Some None
+      end
+    else Some last
+  end.
+
+Fixpoint scan_order (last : option message) (es : list event) : option (option message) :=
+  match es with
+  | [] => Some last
+  | e :: es' => match order_step last e with Some l => scan_order l es' | None => None end
+  end.
